@@ -87,6 +87,16 @@ func RunRoundTrip(c *core.Ctx) {
 			s.Save("rt", d) // insert through Save
 		}
 	}
+	// values handed over as other Go types, also INSIDE a []interface{}: what is stored is their normal form
+	if !s.failed {
+		id := gen.Pick(r, ids)
+		goTyped := []interface{}{int(1), int32(-2), uint8(3), float32(1.5), []string{"x", "y"}, map[string]int16{"k": 7}, []interface{}{int8(4), uint16(5)}}
+		canon := []any{int64(1), int64(-2), uint64(3), float64(1.5), []any{"x", "y"}, map[string]any{"k": int64(7)}, []any{int64(4), uint64(5)}}
+		s.UpdateById("rt", id, &Upd{Name: "set_go_typed", InPlace: r.Bool(), Set: map[string]any{"gt": canon, "gn.x": canon[:3]}, Raw: map[string]any{"gt": goTyped, "gn.x": goTyped[:3]}})
+		id2 := gen.Pick(r, ids)
+		q := &model.Query{Coll: "rt", Crit: model.Cmp(model.OpEq, "_id", model.L(id2))}
+		s.Bulk(BulkUpdateMap, q, &Upd{Name: "set_go_typed", Set: map[string]any{"gu": canon}, Raw: map[string]any{"gu": goTyped}})
+	}
 	verify := func(phase string) {
 		mc := s.coll("rt")
 		for _, id := range mc.IDs() {
